@@ -32,6 +32,16 @@ func c26Gen(rng *core.Rng, tier string) *harness.Plan {
 		return p
 	}
 	p.Params["chains"] = int64(1 + rng.IntN(4))
+	if rng.Chance(0.25) {
+		// concurrent mode (rig R3c): several chains' aggregators submit at the same time, see c26conc.go
+		p.Params["conc"] = 1
+		p.Params["chains"] = int64(2 + rng.IntN(3))
+		p.Params["rounds"] = int64(6 + rng.IntN(10))
+		if tier == "thorough" {
+			p.Params["rounds"] = int64(10 + rng.IntN(40))
+		}
+		return p
+	}
 	if rng.Chance(0.5) {
 		p.Params["commit_stop"] = 1
 	}
@@ -64,6 +74,9 @@ type c26Chain struct {
 func c26Exec(p *harness.Plan) *harness.Outcome {
 	if p.P("byz_leader", 0) == 1 {
 		return c26ByzExec(p)
+	}
+	if p.P("conc", 0) == 1 {
+		return c26Conc(p)
 	}
 	c := newCtx("C26")
 	f, err := storerig.NewFix(7)
